@@ -559,12 +559,21 @@ func checkVersionLines(c *Ctx, r *Report) {
 		}
 		for _, ti := range templateConstants(c, c.Reach(pk.Package)) {
 			var funcs []string
+			var helperFns []*ssa.Function
 			rows := 0
 			for _, row := range ti.Rows {
 				if row.Label != "Version" {
 					continue
 				}
 				rows++
+				if _, hf, whole := infoFieldsOfRowFuncs(c, ti, row); whole {
+					// the whole line is composed by a Go helper handed the
+					// Info: its separators are decided below like the file
+					// name's, its reads of the version by D8-verbatim
+					helperFns = append(helperFns, hf...)
+					funcs = append(funcs, row.GFuncs...)
+					continue
+				}
 				funcs = append(funcs, row.Funcs...)
 				funcs = append(funcs, row.GFuncs...)
 			}
@@ -575,6 +584,21 @@ func checkVersionLines(c *Ctx, r *Report) {
 			funcs = uniq(funcs)
 			r.Check(len(funcs) == 0, "F13-plain", format+": Version line prints the components as configured", c.pos(ti.Fn.Pos()),
 				fmt.Sprintf("functions applied on the Version line: %v; a component rewritten on the way (trimmed, re-formatted) no longer orders and reads as configured", funcs))
+			if len(helperFns) > 0 {
+				reach := map[*ssa.Function]bool{}
+				for _, hf := range helperFns {
+					for g := range c.Reach(hf) {
+						if c.isModuleFunc(g) {
+							reach[g] = true
+						}
+					}
+				}
+				seps := separatorsIn(c, newProv(c), sortedFuncs(c, reach))
+				for comp, want := range map[string]string{"Prerelease": "~", "VersionMetadata": "+", "Release": "-"} {
+					got := joinSorted(seps[comp])
+					r.Check(got == want, "F13", fmt.Sprintf("%s control Version (helper): separator before %s", format, comp), c.pos(helperFns[0].Pos()), fmt.Sprintf("separators {%s}, expected %q", got, want))
+				}
+			}
 		}
 	}
 	r.Floor("F13-plain", n, 2)
